@@ -23,7 +23,6 @@ import (
 	"time"
 
 	"github.com/gorilla/mux"
-	"github.com/rs/zerolog"
 	"github.com/inbucket/inbucket/v3/pkg/config"
 	"github.com/inbucket/inbucket/v3/pkg/extension"
 	"github.com/inbucket/inbucket/v3/pkg/message"
@@ -36,6 +35,7 @@ import (
 	"github.com/inbucket/inbucket/v3/pkg/storage"
 	"github.com/inbucket/inbucket/v3/pkg/storage/mem"
 	"github.com/inbucket/inbucket/v3/pkg/webui"
+	"github.com/rs/zerolog"
 	"verifharness/vh"
 )
 
